@@ -31,4 +31,5 @@ MUTANTS = [
     m("c15-memmap-fill-only-floats", "R5", "    memmap[:] = default_val\n", "    if np.issubdtype(memmap.dtype, np.inexact):\n        memmap[:] = default_val\n", key="fill-not-on-every-path"),
     m("c15-memmap-fill-zero", "R5", "    memmap[:] = default_val\n", "    memmap[:] = 0\n"),
     m("c15-twin-memmap-fill-method", None, "    memmap[:] = default_val\n", "    memmap.fill(default_val)\n", twin=True),
+    m("c15-parent-keeps-waiting-after-interrupt", "R2", "                    elif isinstance(iter_queue_item, KeyboardInterrupt):\n                        exception = iter_queue_item\n                        break", "                    elif isinstance(iter_queue_item, KeyboardInterrupt):\n                        exception = iter_queue_item\n                        chains_completed += 1", key="waits-after-interrupt"),
 ]
